@@ -5,7 +5,7 @@ use std::path::{Path, PathBuf};
 use std::{env, fs, io};
 use xml_dom::{
     AsNode, Attr, AttrMut, CharacterData, Document, DocumentMut, Element, NamedNodeMapMut, Node,
-    PrettyPrint,
+    PrettyPrint, ProcessingInstruction,
 };
 
 struct Argument {
@@ -264,11 +264,35 @@ where
             }
         }
         xml_dom::XmlNode::EntityReference(v) => {
-            let n = document_of(&node)?.create_entity_reference(v.node_name().as_str())?;
-            node.append_child(n.as_node())?;
+            let document = document_of(&node)?;
+            let name = v.node_name();
+            let n = if let Some(code) = name.strip_prefix("&#").and_then(|v| v.strip_suffix(';')) {
+                // The DOM has no character reference nodes: the character itself is inserted
+                // (as a reference to a predefined entity where it cannot be written literally).
+                let ch = match code.strip_prefix('x') {
+                    Some(hex) => u32::from_str_radix(hex, 16),
+                    _ => code.parse::<u32>(),
+                }
+                .ok()
+                .and_then(char::from_u32)
+                .ok_or("Invalid character reference.")?;
+                match ch {
+                    '<' => document.create_entity_reference("lt")?.as_node(),
+                    '&' => document.create_entity_reference("amp")?.as_node(),
+                    _ => document.create_text_node(ch.to_string().as_str()).as_node(),
+                }
+            } else {
+                document.create_entity_reference(name.as_str())?.as_node()
+            };
+            node.append_child(n)?;
         }
         xml_dom::XmlNode::Text(v) => {
             let n = document_of(&node)?.create_text_node(v.data()?.as_str());
+            node.append_child(n.as_node())?;
+        }
+        xml_dom::XmlNode::PI(v) => {
+            let n = document_of(&node)?
+                .create_processing_instruction(v.target().as_str(), v.data().as_str())?;
             node.append_child(n.as_node())?;
         }
         _ => {
